@@ -94,6 +94,16 @@ func startChild(p Property, o childOpts) (*child, error) {
 	}
 	cmd.Env = append(os.Environ(), fmt.Sprintf("GOMAXPROCS=%d", gmp), "GOTRACEBACK=all")
 	cmd.Env = append(cmd.Env, o.env...)
+	if p.Race() {
+		dir := os.Getenv("VERIF_BUILD_DIR")
+		if dir == "" {
+			dir = filepath.Join(verifRoot(), ".build")
+		}
+		dir = filepath.Join(dir, "racelogs")
+		os.MkdirAll(dir, 0o755)
+		logp := filepath.Join(dir, "race")
+		cmd.Env = append(cmd.Env, "GORACE=halt_on_error=0 log_path="+logp, "VERIF_RACE_LOG="+logp)
+	}
 	in, err := cmd.StdinPipe()
 	if err != nil {
 		return nil, err
@@ -123,6 +133,14 @@ func startChild(p Property, o childOpts) (*child, error) {
 	return c, nil
 }
 
+func (c *child) rmRaceLog() {
+	for _, e := range c.cmd.Env {
+		if strings.HasPrefix(e, "VERIF_RACE_LOG=") {
+			os.Remove(fmt.Sprintf("%s.%d", strings.TrimPrefix(e, "VERIF_RACE_LOG="), c.cmd.Process.Pid))
+		}
+	}
+}
+
 func (c *child) kill() {
 	if c == nil || c.dead {
 		return
@@ -131,6 +149,7 @@ func (c *child) kill() {
 	c.in.Close()
 	c.cmd.Process.Kill()
 	c.cmd.Wait()
+	c.rmRaceLog()
 }
 
 func (c *child) close() {
@@ -147,6 +166,7 @@ func (c *child) close() {
 		c.cmd.Process.Kill()
 		<-done
 	}
+	c.rmRaceLog()
 }
 
 func procCPU(pid int) (time.Duration, bool) {
@@ -186,10 +206,6 @@ func libFrameFromDump(dump string) string {
 				l = l[:j]
 			}
 			return normFunc(l)
-		}
-		if l == "" && start > 0 {
-			// end of first goroutine: keep looking in the others only if nothing found
-			continue
 		}
 	}
 	return ""
@@ -472,6 +488,9 @@ func ctlMain(propID, tier string) int {
 		}
 		rf := replayFile{Property: propID, Class: minRes.Class, Site: minRes.Site, Detail: minRes.Detail, Seed: seed, Minimised: steps > 0, Steps: steps, Plan: minPlan, Original: v.plan}
 		dir := filepath.Join(verifRoot(), "replays")
+		if d := os.Getenv("VERIF_REPLAY_DIR"); d != "" {
+			dir = d
+		}
 		os.MkdirAll(dir, 0o755)
 		path := filepath.Join(dir, fmt.Sprintf("%s-%d-%d.json", propID, seed, v.plan.Idx))
 		b, _ := json.MarshalIndent(rf, "", " ")
@@ -692,6 +711,9 @@ func writeEvidence(p Property, tier string, seed uint64, n, nw int, wall, explor
 		"violations":  a.violations,
 	}
 	dir := filepath.Join(verifRoot(), "evidence")
+	if d := os.Getenv("VERIF_EVIDENCE_DIR"); d != "" {
+		dir = d
+	}
 	os.MkdirAll(dir, 0o755)
 	var buf bytes.Buffer
 	enc := json.NewEncoder(&buf)
